@@ -8,6 +8,7 @@ import (
 
 	"github.com/zmap/zcrypto/tls"
 	"verifsim/kit"
+	"verifsim/vsync"
 )
 
 // C31: histories of connections between one client (with a harness-owned
@@ -82,6 +83,12 @@ func genC31(seed uint64, tier string) any {
 			sc.Events = append(sc.Events, c31Event{Kind: "advance", Hours: []int{20, 23, 24, 25, 30}[r.Intn(5)]})
 			if d >= 5 && r.Chance(1, 2) {
 				sc.Events = append(sc.Events, c31Event{Kind: "restore", Off: r.Intn(3)})
+			}
+			if r.Chance(1, 3) {
+				// two application instances (separate session caches) connect at the same moment, here: when a key rotation
+				// is due; right afterwards the second one comes back with the ticket it has just been given
+				sc.Events = append(sc.Events, c31Event{Kind: "connect_pair"}, c31Event{Kind: "connect2"})
+				continue
 			}
 			sc.Events = append(sc.Events, c31Event{Kind: "connect"})
 		}
@@ -200,6 +207,17 @@ func execC31(t *testing.T, scAny any, keepLog bool) *Outcome {
 	o := &Outcome{Counters: map[string]int{}}
 	kit.Bubble(t, func() {
 		run := newSimRun(sc.Seed, sc.Tape, keepLog)
+		for _, ev := range sc.Events {
+			if ev.Kind == "connect_pair" {
+				// concurrent handshakes on one server Config: package tls is built with the lock shim, so that the
+				// scheduler decides the interleaving at every lock operation (ticket-key rotation takes Config's
+				// RWMutex twice), not only at transport calls
+				vsync.Sched = simSched{run.S}
+				vsync.Mode = vsync.ModeLockstep
+				defer func() { vsync.Mode = vsync.ModeReal; vsync.Sched = nil }()
+				break
+			}
+		}
 		s := run.S
 		var offset time.Duration
 		clock := func() time.Time { return s.Now().Add(offset) }
@@ -286,6 +304,12 @@ func execC31(t *testing.T, scAny any, keepLog bool) *Outcome {
 		if sc.Suite12 {
 			ccfg.CipherSuites = []uint16{0x1301, suite12After[3]}
 		}
+		// a second instance of the client application: same configuration, its own session cache and entropy
+		cache2 := &simCache{cur: map[string]*tls.ClientSessionState{}}
+		ccfg2 := ccfg.Clone()
+		ccfg2.ClientSessionCache = cache2
+		ccfg2.Rand = kit.NewReader(run.R.Derive("cli2-rand"))
+		swapped, tampered2, prevExp2 := false, false, false
 		var issued []issuedTicket
 		// Model of the documented automatic key management ("rotated every day and dropped after seven
 		// days"): on every server handshake a new key is created when the newest is a day old, and keys that
@@ -316,10 +340,77 @@ func execC31(t *testing.T, scAny any, keepLog bool) *Outcome {
 		var prev *connOutcome
 		prevPresentedExpired := false // the previous connection presented an authentic ticket older than seven days
 		for ei, ev := range sc.Events {
+			if swapped {
+				// back to the first client
+				cache, cache2, ccfg, ccfg2 = cache2, cache, ccfg2, ccfg
+				tampered, tampered2, prevPresentedExpired, prevExp2 = tampered2, tampered, prevExp2, prevPresentedExpired
+				swapped = false
+			}
 			if o.Fail != nil {
 				break
 			}
+			if ev.Kind == "connect2" {
+				// the same steps and the same expectations as for "connect", seen from the second client
+				cache, cache2, ccfg, ccfg2 = cache2, cache, ccfg2, ccfg
+				tampered, tampered2, prevPresentedExpired, prevExp2 = tampered2, tampered, prevExp2, prevPresentedExpired
+				swapped, prev = true, nil
+				ev.Kind = "connect"
+				o.count("probe.second_client_returns", 1)
+			}
 			switch ev.Kind {
+			case "connect_pair":
+				if sc.KeyMode == "auto" {
+					now := clock()
+					if len(autoKeys) == 0 || now.Sub(autoKeys[0]) >= 24*time.Hour {
+						keep := []time.Time{now}
+						for _, k := range autoKeys {
+							if now.Sub(k) < 7*24*time.Hour {
+								keep = append(keep, k)
+							}
+						}
+						autoKeys = keep
+						o.count("probe.auto_key_rotations", 1)
+						o.count("probe.concurrent_handshakes_at_key_rotation", 1)
+					}
+				}
+				putsA, putsB := len(cache.puts), len(cache2.puts)
+				// what each client is about to present (bookkeeping as in "connect": a TLS <= 1.2 resumption re-wraps the
+				// ticket under its original creation time; a ticket older than seven days counts as presented-expired)
+				offeredOf := func(c *simCache) *issuedTicket {
+					if cur := c.cur[serverName]; cur != nil {
+						return find(tls.VerifSessionTicket(cur))
+					}
+					return nil
+				}
+				pitA, pitB := offeredOf(cache), offeredOf(cache2)
+				after := func(co *connOutcome, pit *issuedTicket) (created time.Time, presentedExpired bool) {
+					created = clock()
+					if co.CErr == nil && co.CState.DidResume && co.CState.Version != vTLS13 && pit != nil {
+						created = pit.Created
+					}
+					return created, pit != nil && pit.ByA && clock().Sub(pit.Created) > 7*24*time.Hour
+				}
+				coA := startConn(run, fmt.Sprintf("c%da", connIdx), ccfg, acceptCfg(), sc.Net, nil)
+				coB := startConn(run, fmt.Sprintf("c%db", connIdx), ccfg2, acceptCfg(), sc.Net, nil)
+				s.Run()
+				connIdx++
+				o.count("probe.concurrent_connection_pairs", 1)
+				if tampered {
+					// (the first client's cached ticket had been altered: what its connection does is judged by "connect" only)
+					tampered = false
+					delete(cache.cur, serverName)
+				} else if coA.CErr != nil || coA.SErr != nil || coB.CErr != nil || coB.SErr != nil {
+					o.Fail = Failf("c31.failed", "handshake failed instead of falling back to a full handshake", "concurrent connections %d (event %d): first client %v / %v, second client %v / %v", connIdx, ei, coA.CErr, coA.SErr, coB.CErr, coB.SErr)
+					break
+				}
+				var createdA, createdB time.Time
+				createdA, prevPresentedExpired = after(coA, pitA)
+				createdB, prevExp2 = after(coB, pitB)
+				record(putsA, true, createdA)
+				cache, cache2 = cache2, cache
+				record(putsB, true, createdB)
+				cache, cache2 = cache2, cache
+				prev = nil
 			case "rotate_keep", "rotate_drop":
 				if sc.KeyMode != "explicit" && sc.KeyMode != "legacy" {
 					continue
